@@ -5,13 +5,11 @@ import Tickit.Proof.RBOps
 namespace Tickit.RB
 open Tickit.RBAbs
 
-/-- A saved concrete frame against a saved abstract frame; `d` is the depth at which it was pushed.
-    The concrete frame has no record of whether the cursor was set: it only has to hold the position if
-    the abstract frame says it was. -/
+/-- A saved concrete frame against a saved abstract frame; `d` is the depth at which it was pushed. -/
 def FrameRel (rb : RB) (d : Int) (f : Frame) (g : AFrame) : Prop :=
   f.penOnly = g.penOnly ∧ f.pen = g.pen ∧ (∀ L C, g.masked L C = absMaskedAt rb d L C) ∧
   (f.penOnly = false → f.xlLine = g.xlLine ∧ f.xlCol = g.xlCol ∧ (∀ L C, g.clip L C = absClipRect f.clip L C) ∧
-    (∀ p, g.vc = some p → p = (f.vcLine, f.vcCol)))
+    g.vc = (if f.vcPosSet then some (f.vcLine, f.vcCol) else none))
 
 /-- The stacks, newest first; `d` is the depth above the first frame. -/
 def FramesRel (rb : RB) : Int → List Frame → List AFrame → Prop
@@ -599,11 +597,11 @@ theorem save_refines {rb : RB} {a : AState} (wf : WF rb) (R : Refines rb a) :
     unfold FramesRel
     have e : rb.depth + 1 - 1 = rb.depth := by omega
     rw [e]
-    refine ⟨⟨rfl, R.pen.symm, fun L C => ?_, fun _ => ⟨R.xlLine.symm, R.xlCol.symm, R.clip, fun p hp => ?_⟩⟩, ?_⟩
+    refine ⟨⟨rfl, R.pen.symm, fun L C => ?_, fun _ => ⟨R.xlLine.symm, R.xlCol.symm, R.clip, ?_⟩⟩, ?_⟩
     · show a.masked L C = absMaskedAt (RB.save rb) rb.depth L C
       rw [R.masked]; exact (absMaskedAt_depth wf L C).symm
-    · have hp' : a.vc = some p := hp
-      rw [R.vc] at hp'; exact (getCursor_some hp').2
+    · show a.vc = if rb.vcSet then some (rb.vcLine, rb.vcCol) else none
+      exact R.vc
     · refine FramesRel_congr (rb := rb) ?_ _ _ _ R.stack
       intro d L C; rfl
 
@@ -627,19 +625,12 @@ theorem savepen_refines {rb : RB} {a : AState} (wf : WF rb) (R : Refines rb a) :
     · refine FramesRel_congr (rb := rb) ?_ _ _ _ R.stack
       intro d L C; rfl
 
-/-- The one thing the concrete `restore` cannot bring back: whether the cursor was set.  `restore` is safe in
-    `a` if the frame it pops is a pen-only one or the cursor is set now exactly if it was set at the `save`. -/
-def RestoreSafe (a : AState) : Prop :=
-  match a.stack with
-  | g :: _ => g.penOnly = true ∨ a.vc.isSome = g.vc.isSome
-  | [] => True
-
 theorem restore_fields {rb : RB} {f : Frame} {prev : List Frame} (h : rb.stack = f :: prev) :
     (RB.restore rb).lines = rb.lines ∧ (RB.restore rb).cols = rb.cols ∧
     (∀ l c, (RB.restore rb).cell l c =
       if 0 ≤ l ∧ l < rb.lines ∧ 0 ≤ c ∧ c < rb.cols ∧ (rb.cell l c).maskdepth > rb.depth - 1
       then { rb.cell l c with maskdepth := -1 } else rb.cell l c) ∧
-    (RB.restore rb).vcSet = rb.vcSet ∧
+    (RB.restore rb).vcSet = (if f.penOnly then rb.vcSet else f.vcPosSet) ∧
     (RB.restore rb).vcLine = (if f.penOnly then rb.vcLine else f.vcLine) ∧
     (RB.restore rb).vcCol = (if f.penOnly then rb.vcCol else f.vcCol) ∧
     (RB.restore rb).xlLine = (if f.penOnly then rb.xlLine else f.xlLine) ∧
@@ -651,7 +642,7 @@ theorem restore_fields {rb : RB} {f : Frame} {prev : List Frame} (h : rb.stack =
   rw [h]
   cases hp : f.penOnly <;> simp [hp, RB.cell]
 
-theorem restore_refines {rb : RB} {a : AState} (wf : WF rb) (R : Refines rb a) (safe : RestoreSafe a) :
+theorem restore_refines {rb : RB} {a : AState} (wf : WF rb) (R : Refines rb a) :
     WF (RB.restore rb) ∧ Refines (RB.restore rb) (RBAbs.restore a) := by
   have hs := R.stack
   cases hrs : rb.stack with
@@ -731,8 +722,6 @@ theorem restore_refines {rb : RB} {a : AState} (wf : WF rb) (R : Refines rb a) (
       have hstack : FramesRel (RB.restore rb) (rb.depth - 1) prev rest :=
         FramesRel_congr_lt _ _ _ (fun d' hd' L C => hmaskedAt d' (by omega) L C) hrest
       have hv := R.vc
-      unfold RestoreSafe at safe
-      rw [has] at safe
       unfold RBAbs.restore
       rw [has]
       simp only
@@ -740,8 +729,8 @@ theorem restore_refines {rb : RB} {a : AState} (wf : WF rb) (R : Refines rb a) (
       | true =>
         have hpf : f.penOnly = true := fr1.trans hp
         simp only [if_true]
-        rw [hpf] at r5 r6 r7 r8 r9
-        simp only [if_true] at r5 r6 r7 r8 r9
+        rw [hpf] at r4 r5 r6 r7 r8 r9
+        simp only [if_true] at r4 r5 r6 r7 r8 r9
         refine ⟨R.lines.trans r1.symm, R.cols.trans r2.symm, fun L C => (R.content L C).trans (hcont L C).symm,
           fun L C => (fr3 L C).trans (hmasked L C).symm, ?_, R.xlLine.trans r7.symm, R.xlCol.trans r8.symm,
           fun L C => by rw [r9]; exact R.clip L C, fr2.symm.trans r10.symm, ?_⟩
@@ -752,30 +741,14 @@ theorem restore_refines {rb : RB} {a : AState} (wf : WF rb) (R : Refines rb a) (
       | false =>
         have hpf : f.penOnly = false := fr1.trans hp
         simp only [Bool.false_eq_true, if_false]
-        rw [hpf] at r5 r6 r7 r8 r9
-        simp only [Bool.false_eq_true, if_false] at r5 r6 r7 r8 r9
+        rw [hpf] at r4 r5 r6 r7 r8 r9
+        simp only [Bool.false_eq_true, if_false] at r4 r5 r6 r7 r8 r9
         obtain ⟨x1, x2, x3, x4⟩ := fr4 hpf
         refine ⟨R.lines.trans r1.symm, R.cols.trans r2.symm, fun L C => (R.content L C).trans (hcont L C).symm,
           fun L C => (fr3 L C).trans (hmasked L C).symm, ?_, x1.symm.trans r7.symm, x2.symm.trans r8.symm,
           fun L C => by rw [r9]; exact x3 L C, fr2.symm.trans r10.symm, ?_⟩
         · show g.vc = getCursor _
-          unfold getCursor; rw [r4, r5, r6]
-          rcases safe with s | s
-          · rw [hp] at s; cases s
-          · unfold getCursor at hv
-            cases hvs : rb.vcSet with
-            | true =>
-              rw [hvs] at hv; simp only [if_true] at hv ⊢
-              rw [hv] at s
-              cases hg : g.vc with
-              | none => rw [hg] at s; simp at s
-              | some p => rw [x4 p hg]
-            | false =>
-              rw [hvs] at hv; simp only [Bool.false_eq_true, if_false] at hv ⊢
-              rw [hv] at s
-              cases hg : g.vc with
-              | none => rfl
-              | some p => rw [hg] at s; simp at s
+          unfold getCursor; rw [r4, r5, r6]; exact x4
         · show FramesRel (RB.restore rb) (RB.restore rb).depth (RB.restore rb).stack rest
           rw [r11, r12]; exact hstack
 
@@ -1448,14 +1421,9 @@ theorem restore_wf {rb : RB} (wf : WF rb) : WF (RB.restore rb) := by
     · rw [r13]; exact wf.aborted
     · rw [r14]; exact wf.fuelOut
 
-/-- When is an operation safe with respect to the one thing `save` forgets? -/
-def OpSafe (a : AState) : Op → Prop
-  | .restore => RestoreSafe a
-  | _ => True
-
 /-- **One step of the refinement**: every operation keeps the buffer well-formed and does to it what the
-    specification says (for `restore`: provided the cursor's set/unset state is what it was at `save`). -/
-theorem step_refines {rb : RB} {a : AState} (wf : WF rb) (R : Refines rb a) (o : Op) (safe : OpSafe a o) :
+    specification says. -/
+theorem step_refines {rb : RB} {a : AState} (wf : WF rb) (R : Refines rb a) (o : Op) :
     WF (RB.step rb o) ∧ Refines (RB.step rb o) (RBAbs.step a o) := by
   cases o with
   | textAt l c s => exact textAt_refines wf R l c s
@@ -1481,23 +1449,18 @@ theorem step_refines {rb : RB} {a : AState} (wf : WF rb) (R : Refines rb a) (o :
   | setpen p => exact setpen_refines wf R p
   | save => exact save_refines wf R
   | savepen => exact savepen_refines wf R
-  | restore => exact restore_refines wf R safe
+  | restore => exact restore_refines wf R
   | reset => exact reset_refines wf R
 
-/-- Safety of a whole program, read off the specification's run. -/
-def ProgSafe : AState → List Op → Prop
-  | _, [] => True
-  | a, o :: rest => OpSafe a o ∧ ProgSafe (RBAbs.step a o) rest
-
-theorem run_refines : ∀ (prog : List Op) {rb : RB} {a : AState}, WF rb → Refines rb a → ProgSafe a prog →
+theorem run_refines : ∀ (prog : List Op) {rb : RB} {a : AState}, WF rb → Refines rb a →
     WF (RB.run rb prog) ∧ Refines (RB.run rb prog) (RBAbs.run a prog) := by
   intro prog
   induction prog with
-  | nil => intro rb a wf R _; exact ⟨wf, R⟩
+  | nil => intro rb a wf R; exact ⟨wf, R⟩
   | cons o rest ih =>
-    intro rb a wf R safe
-    obtain ⟨w, q⟩ := step_refines wf R o safe.1
-    exact ih w q safe.2
+    intro rb a wf R
+    obtain ⟨w, q⟩ := step_refines wf R o
+    exact ih w q
 
 /-- A fresh buffer is well-formed and implements the fresh abstract buffer. -/
 theorem new_refines (lines cols g1 g2 : Int) (hl : 0 ≤ lines) (hc : 0 < cols) :
@@ -1588,12 +1551,11 @@ theorem new_refines (lines cols g1 g2 : Int) (hl : 0 ≤ lines) (hc : 0 < cols) 
 
 /-! ## Reading a concrete buffer as an abstract state -/
 
-/-- The abstract frames of a concrete stack (`d` = depth above the first frame).  Whether the cursor was set
-    when a frame was pushed is not recorded by the code; `none` is the weakest reading. -/
+/-- The abstract frames of a concrete stack (`d` = depth above the first frame). -/
 def absFrames (rb : RB) : Int → List Frame → List AFrame
   | _, [] => []
   | d, f :: fs =>
-    { penOnly := f.penOnly, vc := none, xlLine := f.xlLine, xlCol := f.xlCol, clip := absClipRect f.clip,
+    { penOnly := f.penOnly, vc := (if f.vcPosSet then some (f.vcLine, f.vcCol) else none), xlLine := f.xlLine, xlCol := f.xlCol, clip := absClipRect f.clip,
       pen := f.pen, masked := absMaskedAt rb (d - 1) } :: absFrames rb (d - 1) fs
 
 /-- `abs : RB → AState`. -/
@@ -1609,7 +1571,7 @@ theorem absFrames_rel (rb : RB) : ∀ (fs : List Frame) (d : Int), FramesRel rb 
   | cons f fs ih =>
     intro d
     unfold absFrames FramesRel
-    exact ⟨⟨rfl, rfl, fun _ _ => rfl, fun _ => ⟨rfl, rfl, fun _ _ => rfl, fun p hp => by cases hp⟩⟩, ih (d - 1)⟩
+    exact ⟨⟨rfl, rfl, fun _ _ => rfl, fun _ => ⟨rfl, rfl, fun _ _ => rfl, rfl⟩⟩, ih (d - 1)⟩
 
 theorem refines_absOf (rb : RB) : Refines rb (absOf rb) :=
   ⟨rfl, rfl, fun _ _ => rfl, fun _ _ => rfl, rfl, rfl, rfl, fun _ _ => rfl, rfl, absFrames_rel rb _ _⟩
@@ -1618,30 +1580,30 @@ theorem refines_absOf (rb : RB) : Refines rb (absOf rb) :=
 theorem step_wf {rb : RB} (wf : WF rb) (o : Op) : WF (RB.step rb o) := by
   cases o with
   | restore => exact restore_wf wf
-  | textAt l c s => exact (step_refines wf (refines_absOf rb) (.textAt l c s) trivial).1
-  | text s => exact (step_refines wf (refines_absOf rb) (.text s) trivial).1
-  | eraseAt l c n => exact (step_refines wf (refines_absOf rb) (.eraseAt l c n) trivial).1
-  | erase n => exact (step_refines wf (refines_absOf rb) (.erase n) trivial).1
-  | eraseTo c => exact (step_refines wf (refines_absOf rb) (.eraseTo c) trivial).1
-  | skipAt l c n => exact (step_refines wf (refines_absOf rb) (.skipAt l c n) trivial).1
-  | skip n => exact (step_refines wf (refines_absOf rb) (.skip n) trivial).1
-  | skipTo c => exact (step_refines wf (refines_absOf rb) (.skipTo c) trivial).1
-  | charAt l c cp => exact (step_refines wf (refines_absOf rb) (.charAt l c cp) trivial).1
-  | char cp => exact (step_refines wf (refines_absOf rb) (.char cp) trivial).1
-  | hlineAt l c1 c2 st caps => exact (step_refines wf (refines_absOf rb) (.hlineAt l c1 c2 st caps) trivial).1
-  | vlineAt l1 l2 c st caps => exact (step_refines wf (refines_absOf rb) (.vlineAt l1 l2 c st caps) trivial).1
-  | clear => exact (step_refines wf (refines_absOf rb) .clear trivial).1
-  | eraserect r => exact (step_refines wf (refines_absOf rb) (.eraserect r) trivial).1
-  | skiprect r => exact (step_refines wf (refines_absOf rb) (.skiprect r) trivial).1
-  | goto l c => exact (step_refines wf (refines_absOf rb) (.goto l c) trivial).1
-  | ungoto => exact (step_refines wf (refines_absOf rb) .ungoto trivial).1
-  | translate d r => exact (step_refines wf (refines_absOf rb) (.translate d r) trivial).1
-  | clip r => exact (step_refines wf (refines_absOf rb) (.clip r) trivial).1
-  | mask r => exact (step_refines wf (refines_absOf rb) (.mask r) trivial).1
-  | setpen p => exact (step_refines wf (refines_absOf rb) (.setpen p) trivial).1
-  | save => exact (step_refines wf (refines_absOf rb) .save trivial).1
-  | savepen => exact (step_refines wf (refines_absOf rb) .savepen trivial).1
-  | reset => exact (step_refines wf (refines_absOf rb) .reset trivial).1
+  | textAt l c s => exact (step_refines wf (refines_absOf rb) (.textAt l c s)).1
+  | text s => exact (step_refines wf (refines_absOf rb) (.text s)).1
+  | eraseAt l c n => exact (step_refines wf (refines_absOf rb) (.eraseAt l c n)).1
+  | erase n => exact (step_refines wf (refines_absOf rb) (.erase n)).1
+  | eraseTo c => exact (step_refines wf (refines_absOf rb) (.eraseTo c)).1
+  | skipAt l c n => exact (step_refines wf (refines_absOf rb) (.skipAt l c n)).1
+  | skip n => exact (step_refines wf (refines_absOf rb) (.skip n)).1
+  | skipTo c => exact (step_refines wf (refines_absOf rb) (.skipTo c)).1
+  | charAt l c cp => exact (step_refines wf (refines_absOf rb) (.charAt l c cp)).1
+  | char cp => exact (step_refines wf (refines_absOf rb) (.char cp)).1
+  | hlineAt l c1 c2 st caps => exact (step_refines wf (refines_absOf rb) (.hlineAt l c1 c2 st caps)).1
+  | vlineAt l1 l2 c st caps => exact (step_refines wf (refines_absOf rb) (.vlineAt l1 l2 c st caps)).1
+  | clear => exact (step_refines wf (refines_absOf rb) .clear).1
+  | eraserect r => exact (step_refines wf (refines_absOf rb) (.eraserect r)).1
+  | skiprect r => exact (step_refines wf (refines_absOf rb) (.skiprect r)).1
+  | goto l c => exact (step_refines wf (refines_absOf rb) (.goto l c)).1
+  | ungoto => exact (step_refines wf (refines_absOf rb) .ungoto).1
+  | translate d r => exact (step_refines wf (refines_absOf rb) (.translate d r)).1
+  | clip r => exact (step_refines wf (refines_absOf rb) (.clip r)).1
+  | mask r => exact (step_refines wf (refines_absOf rb) (.mask r)).1
+  | setpen p => exact (step_refines wf (refines_absOf rb) (.setpen p)).1
+  | save => exact (step_refines wf (refines_absOf rb) .save).1
+  | savepen => exact (step_refines wf (refines_absOf rb) .savepen).1
+  | reset => exact (step_refines wf (refines_absOf rb) .reset).1
 
 theorem run_wf : ∀ (prog : List Op) {rb : RB}, WF rb → WF (RB.run rb prog) := by
   intro prog
